@@ -15,11 +15,13 @@ from gen import c07_meta as M
 from gen import c09_stats as tr_stats
 from gen import c14_revision as tr_rev
 from gen import c07_pointid as tr_pid
+from gen import c07_pointid_init as tr_pid_init
 
 ID = "C07"
 PROPS_FILES = ["Gama/Props/C07.lean", "Gama/Props/C07Compose.lean", "Gama/Props/C07Revision.lean",
-               "Gama/Props/C07ProjectEquations.lean"]
-LEAN_TARGETS = ["Gama.Props.C07", "Gama.Props.C07Compose", "Gama.Props.C07Revision", "Gama.Props.C07ProjectEquations"]
+               "Gama/Props/C07ProjectEquations.lean", "Gama/Props/C07PointIdInit.lean"]
+LEAN_TARGETS = ["Gama.Props.C07", "Gama.Props.C07Compose", "Gama.Props.C07Revision", "Gama.Props.C07ProjectEquations",
+                "Gama.Props.C07PointIdInit"]
 DRIVERS = ["drv_input"]
 RULE = ("(a) input stream: PointID pairs from a pool of ASCII / digit / leading-zero / white-space / UTF-8 / long "
         "identifiers and random byte strings (distinct by the pair of byte strings, non-trivial = the two normalised "
@@ -119,6 +121,13 @@ def translate(ctx):
         raise TieBroken("c07_pointid translator", str(e))
     except (OSError, IndexError, ValueError, KeyError) as e:
         raise TieBroken("c07_pointid translator", repr(e))
+    # round 9: PointID::init regenerated statement by statement (Gen/PointIdInit.lean), proved equal to the hand model
+    try:
+        tr_pid_init.run(ctx.repo, ctx.lean)
+    except tr_pid_init.Unparsable as e:
+        raise TieBroken("c07_pointid_init translator", str(e))
+    except (OSError, IndexError, ValueError, KeyError) as e:
+        raise TieBroken("c07_pointid_init translator", repr(e))
     # C07_ellipse_transport is about the std_error_ellipse regenerated by C09's translator
     try:
         text = tr_stats.gen(ctx.repo)
